@@ -52,6 +52,7 @@ def run(ctx):
     EC.validate_traces(ctx, "C03", rec2.traces, "natural")
     if rec2.traces:
         ctx.sample({"natural_trace_events": rec2.traces[0]["events"][:4]})
+    binding_demonstration(ctx, rec2.traces)
     # ---- the repository's own tests, recorded by the pytest plugin (thorough)
     if not quick:
         traces = record_repo_tests(["tests/api", "tests/_simulators/fock/pure/test_measurements.py",
@@ -61,6 +62,47 @@ def run(ctx):
         EC.validate_traces(ctx, "C03", traces, "repo-tests")
     ctx.assumptions += ["physics abstracted at this level: branch weights/states are compared with exact values in the C01/C05 replays",
                         "recorder patch points (Simulator/Instruction methods) are the complete set of linearisation points"]
+
+
+def binding_demonstration(ctx, traces):
+    """The trace specification really constrains the recorded executions: accepted traces are corrupted in one field / one event and every
+    corrupted copy must be REJECTED by TLC (vacuity guard of the trace validation; a corrupted trace that is accepted is a machinery failure)."""
+    import copy
+    import random as _r
+    from .. import engine_traces as ET
+    from ..common import MachineryError
+    rng = _r.Random(ctx.seed + 33)
+    res, _ = ET.validate(traces)
+    good = [t for t, r in zip(traces, res) if r is None and len(t["events"]) >= 5]
+    rng.shuffle(good)
+    corrupted, kinds = [], []
+    for t in good[:40]:
+        steps = [i for i, e in enumerate(t["events"]) if e.get("e") == "step" and e.get("ok") and e.get("subs")]
+        ends = [i for i, e in enumerate(t["events"]) if e.get("e") == "end"]
+        c = copy.deepcopy(t)
+        kind = rng.choice(["drop-step", "shots", "count", "end-samples"])
+        if kind == "drop-step" and steps:
+            del c["events"][rng.choice(steps)]
+        elif kind == "shots" and steps and t["events"][0].get("shots", 0) > 0:
+            i = rng.choice(steps)
+            c["events"][i]["cur_shots"] = c["events"][i]["cur_shots"] + 1
+        elif kind == "count" and steps and t["events"][0].get("shots", 0) > 0:          # counts are meaningless (and unconstrained) for shots=None
+            i = rng.choice(steps)
+            c["events"][i]["subs"][0]["k"] = c["events"][i]["subs"][0]["k"] + 1
+        elif kind == "end-samples" and ends and t["events"][ends[0]].get("nsamples", -1) >= 0 and t["events"][ends[0]].get("status") == "ok":
+            c["events"][ends[0]]["nsamples"] = c["events"][ends[0]]["nsamples"] + 1
+        else:
+            continue
+        corrupted.append(c)
+        kinds.append(kind)
+    if not corrupted:
+        ctx.notes["binding_demonstration"] = "no accepted trace long enough to corrupt"
+        return
+    res2, _ = ET.validate(corrupted)
+    accepted = [k for k, r in zip(kinds, res2) if r is None]
+    ctx.notes["binding_demonstration"] = {"corrupted_traces": len(corrupted), "rejected": len(corrupted) - len(accepted), "kinds": sorted(set(kinds))}
+    if accepted:
+        raise MachineryError(f"trace validation is vacuous: {len(accepted)} corrupted traces were accepted ({sorted(set(accepted))})")
 
 
 def record_repo_tests(paths, timeout=3000):
